@@ -467,6 +467,11 @@ func (i *interpreter) violation(kind, label, msg string, m map[string]uint64) {
 	if m == nil {
 		m = i.model
 	}
+	if os.Getenv("GOSYM_DEBUG_PC") != "" {
+		for _, t := range i.pc {
+			msg += "\n  PC: " + t.String()
+		}
+	}
 	v := &Violation{Harness: i.run.cfg.Func, Pkg: i.run.cfg.Pkg, Label: label, Kind: kind, Msg: msg, Tags: tags, Vals: i.modelVals(m), Sig: sig, Count: 1}
 	r := i.run
 	r.mu.Lock()
